@@ -5,6 +5,8 @@ development (invariant of the cloner, Hoare rules) is in Lemmas/Clone.lean.
 -/
 import IrVerif.Lemmas.Clone
 import IrVerif.Lemmas.CloneFrame
+import IrVerif.Lemmas.CloneSim
+import IrVerif.Lemmas.CloneSer
 namespace IrVerif.Clone
 
 /-! ### what "the objects of a clone" are -/
@@ -398,6 +400,76 @@ theorem C13_frame_orig_edited_model {w w' : World} {fuel m : Nat} {r : Except Er
   have := wellFormed_spec hwf (List.getElem?_eq_getElem hjlt) p hp
   omega
 
+
+/-! ### C13_faithful: the clone is observationally the original -/
+
+theorem sim_of_run {m : M Nat} {Q : Nat → St → Prop} (hm : ∀ s, K s → SGoodAt m s Q) {w w' : World}
+    {r : Nat} (h : run m w = (.ok r, w')) : ∃ s', s'.w = w' ∧ Q r s' := by
+  have hK0 : K { w := w } := by intro p hp; cases hp
+  obtain ⟨_, _, hq⟩ := hm _ hK0
+  unfold run at h
+  rcases hms : m { w := w } with ⟨r1, s1⟩
+  rw [hms] at hq h
+  simp only [Prod.mk.injEq] at h
+  obtain ⟨rfl, rfl⟩ := h
+  exact ⟨s1, rfl, hq r rfl⟩
+
+/-- **C13_faithful** (`Graph.clone`, `GraphView.clone`; both settings of
+    `allow_outer_scope_values`).  In the heap after cloning, the clone `g'` and the original `g` are
+    related by `GraphSim`: same graph name, doc string, opset imports and metadata; inputs,
+    initializers and outputs pairwise with the same observation (`VInfo`: name, doc string, constant
+    tensor, content of the type and shape objects, of `metadata_props` and of `meta`); nodes pairwise
+    with the same operator fields, metadata and device annotations, inputs that are either the same
+    reference (`None`, an outer-scope value) or values with the same observation, outputs with the
+    same observation, attributes that are the same (shared) objects or new attribute objects holding
+    graphs that are again `GraphSim`-related — recursively at every depth.  Everything a serializer
+    reads is covered by the relation (and more: `meta`), so original and clone serialize alike
+    whenever the container keys are consistent (`dictOf` / `initDict` do not merge entries).
+    Together with `C13_clone_pure` (cloning did not change the original) this is faithfulness. -/
+theorem C13_faithful {w w' : World} {fuel : Nat} {allow : Bool} {g g' : Nat}
+    (h : run (graphClone fuel allow g) w = (.ok g', w')) : GraphSim w' g g' := by
+  obtain ⟨s', rfl, hq⟩ := sim_of_run (fun s hK => graphClone_sim fuel g hK) h
+  exact hq
+
+/-- **C13_faithful_function** (`Function.clone`). -/
+theorem C13_faithful_function {w w' : World} {fuel : Nat} {f f' : Nat}
+    (h : run (funcClone fuel f) w = (.ok f', w')) : FuncSim w' f f' := by
+  obtain ⟨s', rfl, hq⟩ := sim_of_run (fun s hK => funcClone_sim fuel f hK) h
+  exact hq
+
+/-- **C13_faithful_model** (`Model.clone`; the model `functionalize` hands to the wrapped pass). -/
+theorem C13_faithful_model {w w' : World} {fuel : Nat} {m m' : Nat}
+    (h : run (modelClone fuel m) w = (.ok m', w')) : ModelSim w' m m' := by
+  obtain ⟨s', rfl, hq⟩ := sim_of_run (fun s hK => modelClone_sim fuel m hK) h
+  exact hq
+
+
+theorem coreLe_of_run {m : M Nat} {Q : Nat → St → Prop} (hm : ∀ s, K s → SGoodAt m s Q) {w w' : World}
+    {r : Except Err Nat} (h : run m w = (r, w')) : CoreLe w w' := by
+  have hK0 : K { w := w } := by intro p hp; cases hp
+  obtain ⟨_, hl, _⟩ := hm _ hK0
+  unfold run at h
+  rcases hms : m { w := w } with ⟨r1, s1⟩
+  rw [hms] at hl h
+  simp only [Prod.mk.injEq] at h
+  obtain ⟨_, rfl⟩ := h
+  exact hl
+
+/-- **C13_faithful_serialize**: `serialize (clone g) = serialize g`.  `serGraph k w g` is the model
+    of what the serializer writes for graph `g` of heap `w` (Lemmas/CloneSer.lean: names, doc
+    strings, opset imports, value infos with type / shape / metadata, initializers, nodes with input
+    and output names, attributes incl. nested graphs, device annotations), defined when the graph can
+    be serialized (attribute containers and initializer names consistent, depth ≤ `k`).  Whatever the
+    original serializes to BEFORE cloning, the clone serializes to the same thing afterwards, and so
+    does the original. -/
+theorem C13_faithful_serialize {w w' : World} {fuel : Nat} {allow : Bool} {g g' : Nat}
+    (h : run (graphClone fuel allow g) w = (.ok g', w')) (k : Nat) (y : SGraph)
+    (hy : serGraph k w g = some y) :
+    serGraph k w' g' = some y ∧ serGraph k w' g = some y := by
+  have hle := coreLe_of_run (fun s hK => graphClone_sim (allow := allow) fuel g hK) h
+  have hy' := serGraph_mono hle k hy
+  exact ⟨serGraph_sim k (C13_faithful h) hy', hy'⟩
+
 /-! ### non-vacuity: the hypotheses are satisfiable and D33 is a real counterexample to the
 unconditional statement for `allow = true` -/
 
@@ -417,6 +489,9 @@ def exWorld : World := [
   .dict {}, .dict {},
   .type { dtype := 1 } ]
 
+/-- the hypothesis `serGraph k w g = some y` of C13_faithful_serialize is satisfiable -/
+example : (serGraph 3 exWorld 0).isSome = true := by decide +kernel
+
 def typeOfDtype (w : World) : List Nat :=
   w.filterMap fun c => match c with
     | .type t => some t.dtype
@@ -435,13 +510,15 @@ example : isOk (run (graphClone 4 true 0) exWorld).1 = true := by decide +kernel
 example : wellFormed exWorld = true := by decide +kernel
 
 def exHistory : List Edit :=
-  [.setDtype 16 7, .setName 16 (some "renamed"), .dictSet 23 .props "k" "v", .replaceInput 19 0 none,
-   .setDim 16 0 (.int 3)]
+  [.setDtype 16 7, .setName 16 (some "renamed"), .dictSet 25 .props "k" "v", .replaceInput 22 0 none,
+   .setShape 16 (some { dims := [.int 2] }), .setDim 16 0 (.int 3)]
 
 example : ∀ e ∈ exHistory, ∀ a ∈ e.args, exWorld.length ≤ a := by decide +kernel
 
 /-- and such a history really changes the clone (so "the original is unchanged" is not vacuous) -/
-example : typeOfDtype (runHistory exHistory (run (graphClone 4 false 0) exWorld).2).2 = [1, 7] := by
+example : typeOfDtype (runHistory exHistory (run (graphClone 4 false 0) exWorld).2).2 = [1, 7] ∧
+    (runHistory exHistory (run (graphClone 4 false 0) exWorld).2).1.all
+      (fun r => match r with | .ok _ => true | .error _ => false) = true := by
   decide +kernel
 
 /-- the type object of the cloned input `x` is a new cell, not cell 12 (D32 fixed) -/
@@ -452,5 +529,39 @@ def typeOfValueNamed (w : World) (nm : String) : List (Option Nat) :=
 
 example : typeOfValueNamed (run (graphClone 4 false 0) exWorld).2 "x" = [some 12, some 13] := by
   decide +kernel
+
+/-! D33 in the model: with `allow = true` the unconditional "every node input of the clone is a
+value of the clone or an outer-scope value" is FALSE for a graph that is not in def-before-use
+order.  Graph g(x): nodes [b, a], a = A(x) -> va, b = B(va) -> vb. -/
+def exUnsorted : World := [
+  .graph { name := some "g", inputs := [3], outputs := [15], nodes := [12, 6], props := 1, mstore := 2 },
+  .dict {}, .dict {},
+  .val { name := some "x", graph := some 0, isIn := true, uses := [(6, 0)], props := 4, mstore := 5 },
+  .dict {}, .dict {},
+  .node { name := some "a", opType := "A", inputs := [some 3], outputs := [9], graph := some 0,
+          props := 7, mstore := 8 },
+  .dict {}, .dict {},
+  .val { name := some "va", producer := some 6, index := some 0, uses := [(12, 0)], props := 10, mstore := 11 },
+  .dict {}, .dict {},
+  .node { name := some "b", opType := "B", inputs := [some 9], outputs := [15], graph := some 0,
+          props := 13, mstore := 14 },
+  .dict {}, .dict {},
+  .val { name := some "vb", producer := some 12, index := some 0, graph := some 0, isOut := true,
+         props := 16, mstore := 17 },
+  .dict {}, .dict {} ]
+
+def inputsOfNodesNamed (w : World) (nm : String) : List (List (Option Nat)) :=
+  w.filterMap fun c => match c with
+    | .node n => if n.name = some nm then some n.inputs else none
+    | _ => none
+
+/-- the clone's node `b` consumes cell 9 — the ORIGINAL's value `va` (cell 9 < 18 = heap size
+    before cloning): the clone points into the original -/
+example : isOk (run (graphClone 4 true 0) exUnsorted).1 = true ∧
+    inputsOfNodesNamed (run (graphClone 4 true 0) exUnsorted).2 "b" = [[some 9], [some 9]] := by
+  decide +kernel
+
+/-- with `allow = false` the same graph is rejected -/
+example : isOk (run (graphClone 4 false 0) exUnsorted).1 = false := by decide +kernel
 
 end IrVerif.Clone
